@@ -54,11 +54,30 @@ Proof.
   split; [reflexivity|].
   intros H. specialize (H [5; 3] 10%nat 1 []). vm_compute in H. specialize (H eq_refl). discriminate.
 Qed.
-(* after the repair the same function stays a loop, on the proved path, and behaves *)
+(* after the repair the same function stays a loop (the shortcut is not taken: snd fl = false) and behaves.
+   Its output is a loop whose body now ends in `break 2` and whose loop variable v3 still names its dropped
+   loop value v8: a dangling name that is never read (see ccp_wf_refuted in ProofsPipeline.v) *)
 Lemma ccp_new_on_old_witness :
-  exists f' fl, ccp wit_loop_once = Some (f', fl) /\ fl = (false, false) /\
+  exists f' fl, ccp wit_loop_once = Some (f', fl) /\ snd fl = false /\
                 sem Wrap wit_world f' [5; 3] 10 = Done 1 [] /\ sem Wrap wit_world f' [1; 3] 10 = Done 2 [].
 Proof. eexists. eexists. split; [vm_compute; reflexivity|]. split; vm_compute; auto. Qed.
+
+(* The one exclusion of the CCP theorem is about unreachable code only: on wit_loop_once the pass (as it is now)
+   keeps the loop, its optimised body ends in `break 2`, the statement v8 = v3 + 1 after it is dropped, and the
+   loop variable v3 still has the loop value v8.  The output is not well scoped any more (wf_func fails), it is
+   flagged by Passes.dead_final_operands, and it still behaves like the input (v8 is never read). *)
+Lemma ccp_dead_code_ill_scoped_witness :
+  exists f f' fl, wf_func f = true /\ no_break_l (f_body f) = true /\ ccp f = Some (f', fl) /\
+                  dead_final_operands f = true /\ wf_func f' = false /\
+                  f_body f' = [SWhile [(3%N, EVar 1%N, EVar 8%N); (4%N, EVar 2%N, EVar 4%N)]
+                                 [SBin 5%N LT (EVar 4%N) (EVar 3%N); SSIf (EVar 5%N) false [SBreak (EInt 1)]; SBreak (EInt 2)]
+                                 (Some 7%N)] /\
+                  sem Add wit_world f [5; 3] 10 = Done 1 [] /\ sem Add wit_world f' [5; 3] 10 = Done 1 [] /\
+                  sem Add wit_world f [1; 3] 10 = Done 2 [] /\ sem Add wit_world f' [1; 3] 10 = Done 2 [].
+Proof.
+  exists wit_loop_once. eexists. eexists. split; [vm_compute; reflexivity|]. split; [vm_compute; reflexivity|].
+  split; [vm_compute; reflexivity|]. vm_compute. repeat split.
+Qed.
 
 (* f(x) = ((x + MAX) + 1) < -3 : with the wrapping merge of constants (before fix 8c7c465) two rounds of the
    pass turned it into x < 2147483645; the current model (C02.Kernels.merge_binop declines when c1 + c2 wraps)
